@@ -68,7 +68,8 @@ REQUIRED_COUNTERS = ['histories_checked', 'trial_boundary_faults',
                      'rounds_with_numpy_or_retyped_numbers',
                      'histories_through_run_file_with_log',
                      'growth_after_completion_histories',
-                     'rounds_continuing_with_the_same_objects']
+                     'rounds_continuing_with_the_same_objects',
+                     'rounds_with_live_results_read_at_every_update']
 SHARD_TIMEOUT = {'quick': 1200, 'thorough': 5400}
 BINS_PER_CPU = 4
 
@@ -81,7 +82,14 @@ FOREIGN_RATE = 0.987
 
 
 def sim_key(inputs):
-    return json.dumps(inputs, sort_keys=True)
+    """Identity of a simulation as the property states it: (code, noise,
+    decoder, error rate) by name and parameters -- whatever else a record's
+    inputs carry does not make it another simulation."""
+    ident = {k: {'name': (inputs.get(k) or {}).get('name'),
+                 'parameters': (inputs.get(k) or {}).get('parameters')}
+             for k in ('code', 'error_model', 'decoder', 'method')}
+    ident['error_rate'] = inputs.get('error_rate')
+    return json.dumps(ident, sort_keys=True, default=str)
 
 
 def ids_of(record, tracer):
@@ -253,7 +261,8 @@ def run_history(out, hist, tag):
                                                        'nsims', 'types')
                       if kk in hist['final']},
             'via_run_file': bool(hist.get('via_run_file')),
-            'reuse_objects': hist.get('reuse_objects')}
+            'reuse_objects': hist.get('reuse_objects'),
+            'poll': bool(hist.get('poll'))}
     mech = f"history/{hist['fmt']}"
     snap_dirs = []
     foreign = set()
@@ -271,7 +280,9 @@ def run_history(out, hist, tag):
                                stop_kind=r.get('kind', 'kill'),
                                spec_types=r.get('types'),
                                via_run_file=bool(hist.get('via_run_file')),
-                               keep=keep)
+                               keep=keep, poll=bool(hist.get('poll')))
+            if hist.get('poll'):
+                out.count('rounds_with_live_results_read_at_every_update')
             if info.get('reused_objects'):
                 out.count('rounds_continuing_with_the_same_objects')
             if keep is not None and info['status'] == 'stopped':
@@ -298,7 +309,7 @@ def run_history(out, hist, tag):
         info = V.run_round(f['spec'], out_file, f['target'], f['sf'], inc,
                            snap_dir=sd, spec_types=f.get('types'),
                            via_run_file=bool(hist.get('via_run_file')),
-                           keep=keep)
+                           keep=keep, poll=bool(hist.get('poll')))
         if info.get('reused_objects'):
             out.count('rounds_continuing_with_the_same_objects')
         if hist.get('via_run_file'):
@@ -464,6 +475,7 @@ def random_histories(rng, n, tier):
                 r['kind'] = 'interrupt'     # a pause, not a dead process
         hs.append({'fmt': fmt, 'tracer': tracer, 'rounds': rounds,
                    'reuse_objects': reuse,
+                   'poll': bool(not via and rng.random() < 0.35),
                    'via_run_file': via,
                    'final': {'spec': spec, 'target': target,
                              'sf': int(rng.choice([1, 2, 3, 7])),
